@@ -145,19 +145,21 @@ theorem contained_joinSlash {cs : List Bytes} (hne : cs ≠ []) (h : GoodComps c
 
 /-! ### Tree-consistent views -/
 
-/-- The view is a tree of directories and regular files in which the lookup
-    table and the children tables say the same thing. `skip` lists the keys
+/-- The view is a tree of directories with regular files, symbolic links and
+    special files as leaves (no hard links), in which the lookup table and the
+    children tables say the same thing. `skip` lists the keys
     that are registered but not yet connected to their directory (the state in
     the middle of `add`). -/
 structure TreeOK (skip : List Bytes) (fs : FS) : Prop where
   inv : Inv fs
   root : fs.get? dotP = some 0
   rootDir : (fs.ino 0).kind = .dir
-  plain : ∀ i, (fs.ino i).kind = .dir ∨ (fs.ino i).kind = .reg
+  keyed : ∀ i, i < fs.inodes.length → ∃ k, fs.get? k = some i
   named : ∀ k i, fs.get? k = some i → (fs.ino i).name = k ∧ i < fs.inodes.length
   kinds : ∀ k i, fs.get? k = some i →
     ((fs.ino i).kind = .dir ∧ ∃ cs, (fs.ino i).children = some cs) ∨
-    ((fs.ino i).kind = .reg ∧ (fs.ino i).children = none ∧ ∃ d, (fs.ino i).data = some d)
+    ((fs.ino i).kind ≠ .dir ∧ (fs.ino i).kind ≠ .link ∧ (fs.ino i).children = none ∧
+      ((fs.ino i).kind = .reg → ∃ d, (fs.ino i).data = some d))
   up : ∀ k i, fs.get? k = some i → k ≠ dotP → k ∉ skip →
     ∃ j cs, fs.get? (dirOf k) = some j ∧ dirOf k ∉ skip ∧ (fs.ino j).kind = .dir ∧
       (fs.ino j).children = some cs ∧ i ∈ cs
@@ -254,12 +256,16 @@ theorem TreeOK.prefix_dir {skip : List Bytes} {fs : FS} (h : TreeOK skip fs) :
     · have hlen : s'.length = m := by simp at hn; omega
       exact ih s' hlen pre j (fun x hx => hg x (by simp at hx ⊢; rcases hx with hx | hx <;> simp [hx])) hpre hs'' hj hjs
 
-/-- The `Resolve:` loop on a child that is a directory or a regular file. -/
+/-- The `Resolve:` loop on a child that is a directory, or anything but a
+    directory or a symbolic link. -/
 theorem resolve_plain (mk : Option (FS → Bytes → FS)) (last : Bool) (fuel : Nat) (fs : FS) (c : Nat) :
     ((fs.ino c).kind = .dir → resolve mk last (fuel + 1) fs [] c = (fs, .ok c)) ∧
-    ((fs.ino c).kind = .reg → resolve mk last (fuel + 1) fs [] c =
+    ((fs.ino c).kind ≠ .dir → (fs.ino c).kind ≠ .sym → resolve mk last (fuel + 1) fs [] c =
       (fs, if last then .ok c else .error .exist)) := by
-  constructor <;> intro hk <;> simp [resolve, hk] <;> split <;> rfl
+  constructor
+  · intro hk; simp [resolve, hk]
+  · intro hk1 hk2
+    cases hkk : (fs.ino c).kind <;> simp [resolve, hkk] at hk1 hk2 ⊢ <;> split <;> rfl
 
 theorem joinSlash_done (done : List Bytes) (n : Bytes) :
     (if done.isEmpty = true then n else joinSlash done ++ SL :: n) = joinSlash (done ++ [n]) := by
@@ -274,6 +280,8 @@ theorem TreeOK.walkLoop_none {skip : List Bytes} {fs : FS} (h : TreeOK skip fs) 
     ∀ (rest done : List Bytes) (cur : Nat), GoodComps (done ++ rest) →
       fs.get? (pathOf done) = some cur →
       (∀ pre suf, done ++ rest = pre ++ suf → pre ≠ [] → joinSlash pre ∉ skip) →
+      (∀ pre suf, done ++ rest = pre ++ suf → pre ≠ [] → ∀ i, fs.get? (joinSlash pre) = some i →
+        (fs.ino i).kind ≠ .sym) →
       (∀ i, fs.get? (pathOf (done ++ rest)) = some i →
         walkLoop none fs cur (joinSlash done) done.isEmpty rest = (fs, .ok i)) ∧
       (fs.get? (pathOf (done ++ rest)) = none →
@@ -281,11 +289,13 @@ theorem TreeOK.walkLoop_none {skip : List Bytes} {fs : FS} (h : TreeOK skip fs) 
   intro rest
   induction rest with
   | nil =>
-    intro done cur _ hcur _
+    intro done cur _ hcur _ _
     simp only [List.append_nil, walkLoop]
     exact ⟨fun i hi => by rw [hcur] at hi; cases hi; rfl, fun hn => by rw [hcur] at hn; cases hn⟩
   | cons n rest ih =>
-    intro done cur hg hcur hsk
+    intro done cur hg hcur hsk hns
+    have hns' : ∀ pre suf, (done ++ [n]) ++ rest = pre ++ suf → pre ≠ [] → ∀ i, fs.get? (joinSlash pre) = some i →
+        (fs.ino i).kind ≠ .sym := fun pre suf e hp => hns pre suf (by simpa [List.append_assoc] using e) hp
     have hg1 : GoodComps (done ++ [n]) := fun x hx => hg x (by simp at hx ⊢; rcases hx with hx | hx <;> simp [hx])
     have hg2 : GoodComps ((done ++ [n]) ++ rest) := by simpa [List.append_assoc] using hg
     have hfull : pathOf (done ++ n :: rest) = joinSlash ((done ++ [n]) ++ rest) := by
@@ -313,10 +323,10 @@ theorem TreeOK.walkLoop_none {skip : List Bytes} {fs : FS} (h : TreeOK skip fs) 
       rcases h.kinds _ c hb with ⟨hk, _⟩ | ⟨hk, _⟩
       · rw [(resolve_plain none rest.isEmpty _ fs c).1 hk]
         simp only
-        have := ih (done ++ [n]) c hg2 (by rw [hpath]; exact hb) hsk'
+        have := ih (done ++ [n]) c hg2 (by rw [hpath]; exact hb) hsk' hns'
         rw [hempty] at this
         simpa [List.append_assoc] using this
-      · rw [(resolve_plain none rest.isEmpty _ fs c).2 hk]
+      · rw [(resolve_plain none rest.isEmpty _ fs c).2 hk (hns (done ++ [n]) rest (by simp) (by simp) c hb)]
         by_cases hr : rest = []
         · subst hr
           simp only [List.isEmpty_nil, if_true, walkLoop]
@@ -330,12 +340,14 @@ theorem TreeOK.walkLoop_none {skip : List Bytes} {fs : FS} (h : TreeOK skip fs) 
           rw [hfull] at hi
           obtain ⟨c', hc', hk', _⟩ := h.prefix_dir rest (done ++ [n]) i hg2 (by simp) hr hi hskfull
           rw [hb] at hc'; cases hc'
-          rw [hk] at hk'; cases hk'
+          exact hk hk'
 
 /-- `getInode` is a lookup for every name none of whose prefixes is the
     unconnected key. -/
 theorem TreeOK.getInode_eq {skip : List Bytes} {fs : FS} (h : TreeOK skip fs) {p : Bytes} (hp : Contained p)
-    (hsk : ∀ pre suf, splitSlash p = pre ++ suf → pre ≠ [] → joinSlash pre ∉ skip) :
+    (hsk : ∀ pre suf, splitSlash p = pre ++ suf → pre ≠ [] → joinSlash pre ∉ skip)
+    (hns : ∀ pre suf, splitSlash p = pre ++ suf → pre ≠ [] → suf ≠ [] → ∀ i, fs.get? (joinSlash pre) = some i →
+      (fs.ino i).kind ≠ .sym) :
     getInode fs p = match fs.get? p with
       | some i => .ok i
       | none => .error .notexist := by
@@ -348,8 +360,16 @@ theorem TreeOK.getInode_eq {skip : List Bytes} {fs : FS} (h : TreeOK skip fs) {p
     simp only
     have hd : p ≠ dotP := by intro e; subst e; rw [h.root] at hget; cases hget
     obtain ⟨hg, hk, hne⟩ := goodComps_of_contained hp hd
+    have hns' : ∀ pre suf, [] ++ splitSlash p = pre ++ suf → pre ≠ [] → ∀ i, fs.get? (joinSlash pre) = some i →
+        (fs.ino i).kind ≠ .sym := by
+      intro pre suf e hpre i hi
+      by_cases hsuf : suf = []
+      · subst hsuf
+        simp only [List.nil_append, List.append_nil] at e
+        rw [← e, ← hk, hget] at hi; cases hi
+      · exact hns pre suf (by simpa using e) hpre hsuf i hi
     have hw := (h.walkLoop_none (splitSlash p) [] 0 (by simpa using hg) (by simpa [pathOf] using h.root)
-      (by simpa using hsk)).2
+      (by simpa using hsk) hns').2
       (by simp only [List.nil_append, pathOf, hne, if_false]; rw [← hk]; exact hget)
     obtain ⟨e, he⟩ := hw
     unfold walkTo
@@ -359,8 +379,14 @@ theorem TreeOK.getInode_eq {skip : List Bytes} {fs : FS} (h : TreeOK skip fs) {p
     simp only [joinSlash, List.isEmpty_nil] at he
     rw [he]
 
+/-- No proper prefix of `p` (as a name) is the key of a symbolic link:
+    the path is asked for as it was archived, not through a link. -/
+def NoLinkOnPath (fs : FS) (p : Bytes) : Prop :=
+  ∀ pre suf, splitSlash p = pre ++ suf → pre ≠ [] → suf ≠ [] →
+    ∀ i, fs.get? (joinSlash pre) = some i → (fs.ino i).kind ≠ .sym
+
 /-- With nothing pending, `getInode` is a lookup. -/
-theorem TreeOK.getInode_eq' {fs : FS} (h : TreeOK [] fs) {p : Bytes} (hp : Contained p) :
+theorem TreeOK.getInode_eq' {fs : FS} (h : TreeOK [] fs) {p : Bytes} (hp : Contained p) (hns : NoLinkOnPath fs p) :
     getInode fs p = match fs.get? p with
       | some i => .ok i
       | none => .error .notexist := by
@@ -368,7 +394,7 @@ theorem TreeOK.getInode_eq' {fs : FS} (h : TreeOK [] fs) {p : Bytes} (hp : Conta
   · subst hd
     unfold getInode
     simp [show validPath dotP = true by decide, show clean dotP = dotP by decide, h.root]
-  · apply h.getInode_eq hp
+  · apply h.getInode_eq hp _ hns
     intro pre suf e hpre
     simp
 
